@@ -29,6 +29,13 @@ func (k *Keeper) OptIn(
 	if isAvs, _ := k.avsKeeper.IsAVS(ctx, avsAddr); !isAvs {
 		return types.ErrNoSuchAvs.Wrapf("AVS not found %s", avsAddr)
 	}
+	// all operator state is keyed by the AVS address string: use the spelling under which the
+	// AVS is registered, so that the epoch hook (which iterates that spelling) finds the operator
+	storedAVSAddr, err := k.avsKeeper.GetStoredAVSAddress(ctx, avsAddr)
+	if err != nil {
+		return types.ErrNoSuchAvs.Wrapf("AVS not found %s", avsAddr)
+	}
+	avsAddr = storedAVSAddr
 	// check optedIn info
 	if k.IsOptedIn(ctx, operatorAddress.String(), avsAddr) {
 		return types.ErrAlreadyOptedIn
@@ -103,6 +110,13 @@ func (k *Keeper) OptOut(ctx sdk.Context, operatorAddress sdk.AccAddress, avsAddr
 	if isAvs, _ := k.avsKeeper.IsAVS(ctx, avsAddr); !isAvs {
 		return types.ErrNoSuchAvs.Wrapf("AVS not found %s", avsAddr)
 	}
+	// use the spelling under which the AVS is registered (see OptIn)
+	var storedAVSAddr string
+	storedAVSAddr, err = k.avsKeeper.GetStoredAVSAddress(ctx, avsAddr)
+	if err != nil {
+		return types.ErrNoSuchAvs.Wrapf("AVS not found %s", avsAddr)
+	}
+	avsAddr = storedAVSAddr
 	// check if the operator is active. It's not allowed to opt-out if the operator
 	// isn't opted-in or is jailed.
 	if !k.IsActive(ctx, operatorAddress, avsAddr) {
